@@ -1,1 +1,134 @@
-/- C16 property theorems (stub: not built yet) -/
+import ThriftVerif.Lib.TrimLemmas
+/-!
+  C16 — trimming keeps exactly what kept services need; meaning is unchanged.
+  Model: `Trim` (Lib/Trim.lean) = tool/trimmer/trim {mark.go, pre-process.go, traversal.go, trimmer.go}.
+  `M p cfg` below is `Trimmer.marks` after `markAST`; `crash = false` says that no fuel of the
+  include-tree / extends-chain recursions ran out (true whenever includes and `extends` are acyclic).
+-/
+namespace Props.C16
+open Trim
+
+/-- The DFS fuel `fuelN p` (= number of nodes + 1) never truncates a visit: the final mark set is
+closed — every marked struct-like has the targets of all its field types marked, every marked
+typedef the targets of its target type.  No hypothesis. -/
+theorem fuel_suffices (p : Program) (cfg : Cfg) : Closed p (markAST p cfg).marks :=
+  (markAST_inv p cfg).m.closed
+
+/-- mark_sound (nothing needed is removed): every node of the least set `Reach` — what kept functions,
+constants, typedefs and preserved struct-likes name, closed under field types, container elements,
+typedef targets and includes — is marked. -/
+theorem mark_sound (p : Program) (cfg : Cfg) (hc : (markAST p cfg).crash = false) (hu : UniqueSvcFn p) :
+    ∀ n, Reach p cfg (markAST p cfg).marks n → n ∈ (markAST p cfg).marks :=
+  fun _ h => reach_marked p cfg hc hu h
+
+/-- mark_exact (everything else is removed): a marked struct-like, enum or typedef is in `Reach`;
+preserved struct-likes are roots of `Reach`.  No hypothesis. -/
+theorem mark_exact (p : Program) (cfg : Cfg) :
+    ∀ n ∈ (markAST p cfg).marks, n.isDecl = true → Reach p cfg (markAST p cfg).marks n :=
+  (markAST_inv p cfg).m.just
+
+/-- always_kept, sweep_marked: `traversal` never touches enums, typedefs and constants of a file, and
+keeps every marked include and every marked struct-like. -/
+theorem always_kept (p : Program) (cfg : Cfg) (ms : List Bytes) (st : St) (f : Nat) :
+    (∀ i inc, (p.file f).includes[i]? = some inc → Node.inc f i ∈ st.marks →
+      inc ∈ (sweepFile p cfg ms st f (p.file f)).includes) ∧
+    (∀ k s, s ∈ (p.file f).sl k → Node.sl f k s.name ∈ st.marks → s ∈ (sweepFile p cfg ms st f (p.file f)).sl k) ∧
+    (sweepFile p cfg ms st f (p.file f)).enums = (p.file f).enums ∧
+    (sweepFile p cfg ms st f (p.file f)).typedefs = (p.file f).typedefs ∧
+    (sweepFile p cfg ms st f (p.file f)).consts = (p.file f).consts :=
+  marked_survives p cfg ms st f
+
+/-- wire_unchanged at model level: a struct-like that survives is literally one of the original
+struct-likes (same fields, ids, types); a surviving service keeps its name and only original functions. -/
+theorem kept_bodies_unchanged (p : Program) (cfg : Cfg) (ms : List Bytes) (st : St) (f : Nat) :
+    (∀ k s, s ∈ (sweepFile p cfg ms st f (p.file f)).sl k → s ∈ (p.file f).sl k) ∧
+    (∀ svc' ∈ (sweepFile p cfg ms st f (p.file f)).services, ∃ svc ∈ (p.file f).services,
+      svc'.name = svc.name ∧ ∀ fn ∈ svc'.fns, fn ∈ svc.fns) :=
+  sweep_bodies p cfg ms st f
+
+/-- trim_resolves, type part: whatever survives in an included file — constants, typedefs, fields of
+kept struct-likes, arguments/results/exceptions of kept functions — names only marked nodes, which
+by `always_kept` survive: no kept node refers to a deleted definition or a deleted include. -/
+theorem kept_refs_kept (p : Program) (cfg : Cfg) (hc : (markAST p cfg).crash = false) (hu : UniqueSvcFn p) (hl : UniqueSL p)
+    (f : Nat) (hr : InclReach p f) :
+    (∀ c ∈ (sweepFile p cfg (effMethods p cfg) (markAST p cfg) f (p.file f)).consts, ∀ x ∈ tyTargets p f c.ty, x ∈ (markAST p cfg).marks) ∧
+    (∀ t ∈ (sweepFile p cfg (effMethods p cfg) (markAST p cfg) f (p.file f)).typedefs, ∀ x ∈ tyTargets p f t.ty, x ∈ (markAST p cfg).marks) ∧
+    (∀ k, ∀ s ∈ (sweepFile p cfg (effMethods p cfg) (markAST p cfg) f (p.file f)).sl k, ∀ fd ∈ s.fields,
+      ∀ x ∈ tyTargets p f fd.ty, x ∈ (markAST p cfg).marks) ∧
+    (∀ svc ∈ (sweepFile p cfg (effMethods p cfg) (markAST p cfg) f (p.file f)).services, ∀ fn ∈ svc.fns, ∀ ty ∈ fn.types,
+      ∀ x ∈ tyTargets p f ty, x ∈ (markAST p cfg).marks) :=
+  kept_refs p cfg hc hu hl f hr
+
+/-- services_nofilter: without -m every root service is marked, and every marked service is complete:
+all its functions are marked and, when it extends a service of another file, that include and that
+base service are marked (so the whole cross-file extends chain survives). -/
+theorem services_nofilter (p : Program) (cfg : Cfg) (hm : cfg.methods = []) (hu : UniqueSvcFn p)
+    (hc : (markAST p cfg).crash = false) :
+    (∀ svc ∈ (p.file 0).services, Node.svc 0 svc.name ∈ (markAST p cfg).marks) ∧
+    (∀ f svc, svc ∈ (p.file f).services → Node.svc f svc.name ∈ (markAST p cfg).marks → SvcOK p (markAST p cfg).marks f svc) := by
+  obtain ⟨h1, h2⟩ := nofilter_final p cfg hm hu hc
+  refine ⟨h2, fun f svc hs hmk => ?_⟩
+  rcases h1 f svc hs hmk with h | h
+  · simp at h
+  · exact h
+
+/-- always_kept, reachability part: a file that declares a constant or a typedef is still reachable
+from the root through the includes `traversal` keeps (so, with `always_kept`, every constant and
+typedef of the program survives). -/
+theorem consts_typedefs_reachable (p : Program) (cfg : Cfg) (hc : (markAST p cfg).crash = false) (f : Nat)
+    (hr : InclReach p f) (hct : hasCT p f = true) : KeptReach p (markAST p cfg).marks f :=
+  ct_kept_reach p cfg hc hr hct
+
+/-- method_filter, "only matching methods remain": with -m every marked function `n` (only marked
+functions survive `traversal`) is matched by a pattern under the name of some service `fa`:
+`rx pat (fa ++ "." ++ n)`.  The other direction ("a matching method of a root service remains") is
+checked by the oracle only. -/
+theorem method_filter (p : Program) (cfg : Cfg) (hne : cfg.methods ≠ []) :
+    ∀ f s n, Node.fn f s n ∈ (markAST p cfg).marks →
+      ∃ fa, hitLoose cfg (effMethods p cfg) (dot fa n) = true :=
+  method_filter_sound p cfg hne
+
+/-- trim_resolves, service part (PARTIAL: without -m only).  A kept service that extends a service of
+another file keeps that include and that base service; a root service that extends a service of the
+root file keeps it.  The full statement — "every `extends` of a kept service still resolves" — is
+false: see `base_service_dropped`. -/
+theorem trim_resolves_partial (p : Program) (cfg : Cfg) (hm : cfg.methods = []) (hu : UniqueSvcFn p)
+    (hc : (markAST p cfg).crash = false) :
+    (∀ f svc, svc ∈ (p.file f).services → Node.svc f svc.name ∈ (markAST p cfg).marks → svc.ext ≠ [] →
+      ∀ rn i g b, svc.ref = some (rn, i) → p.incTarget f i = some g → findSvc p g rn = some b →
+        Node.inc f i ∈ (markAST p cfg).marks ∧ Node.svc g b.name ∈ (markAST p cfg).marks) ∧
+    (∀ svc ∈ (p.file 0).services, ∀ b, findSvc p 0 svc.ext = some b → Node.svc 0 b.name ∈ (markAST p cfg).marks) := by
+  obtain ⟨h1, h2⟩ := services_nofilter p cfg hm hu hc
+  refine ⟨fun f svc hs hmk he rn i g b hr hg hb => ?_, fun svc _ b hb => h1 b (findSvc_mem p hb)⟩
+  have := (h2 f svc hs hmk).2 he rn i g hr hg
+  exact ⟨this.1, this.2 b hb⟩
+
+/-- Counterexample to the full trim_resolves (defect, reproduced on the implementation by the oracle
+class `trim-error`): `f0: include "f1.thrift"; service V0 extends f1.V2 {}` and
+`f1: service V1 {}; service V2 extends V1 {}`, no -m.  The run does not crash, `V1` exists before,
+and afterwards file 1 consists of `V2 extends V1` alone: its base service is gone. -/
+theorem base_service_dropped :
+    (markAST progA cfg0).crash = false ∧
+    findSvc progA 1 [86, 49] ≠ none ∧
+    ((trimProg progA cfg0).file 1).services = [⟨[86, 50], [86, 49], none, []⟩] ∧
+    findSvc (trimProg progA cfg0) 1 [86, 49] = none :=
+  progA_facts
+
+/-- Counterexample to trim_idempotent with -m (defect, oracle class `not-idempotent`):
+`service V0 {}  service V1 extends V0 { void putAll() }`, `-m V1.put`.  The first trim keeps
+`putAll` (traceExtendMethod matches without the prefix rule) and cuts `extends`; the second trim,
+now without `extends`, applies the prefix rule and removes the service. -/
+theorem not_idempotent_with_methods :
+    (markAST progB cfgB).crash = false ∧
+    ((trimProg progB cfgB).file 0).services = [⟨[86, 49], [], none, [⟨[112, 117, 116, 65, 108, 108], [], [], none⟩]⟩] ∧
+    ((trimProg (trimProg progB cfgB) cfgB).file 0).services = [] :=
+  progB_facts
+
+/-- The hypotheses of the theorems above are satisfiable (a root with one service and one struct). -/
+example : UniqueSvcFn ⟨[⟨[102], [], [], [], [], [⟨[83], [], false⟩], [], [], [⟨[86], [], none, []⟩]⟩]⟩ := by
+  intro f
+  match f with
+  | 0 => simp [Program.file]
+  | n+1 => simp [Program.file, emptyFile]
+
+end Props.C16
